@@ -214,14 +214,15 @@ func (b *Box) maybeGC() {
 
 	defer atomic.StoreUint64(&b.lastGC, now)
 
+	// Mark and sweep in one critical section: a topic that is used in between must not be swept
+	b.lock.Lock()
+	defer b.lock.Unlock()
+
 	topics2Delete := b.mark(now, epochsAfterWhichWeGC)
 	b.sweep(topics2Delete)
 }
 
 func (b *Box) sweep(topics2Delete []string) {
-	b.lock.Lock()
-	defer b.lock.Unlock()
-
 	for _, topic := range topics2Delete {
 		messages, exists := b.pendingMessages[topic]
 		if exists {
@@ -237,9 +238,6 @@ func (b *Box) sweep(topics2Delete []string) {
 
 func (b *Box) mark(now uint64, epochsAfterWhichWeGC time.Duration) []string {
 	var topics2Delete []string
-
-	b.lock.RLock()
-	defer b.lock.RUnlock()
 
 	for topic, messages := range b.pendingMessages {
 		if time.Duration(now-messages.lastUsedEpoch()) > epochsAfterWhichWeGC {
